@@ -293,27 +293,27 @@ Proof.
       apply andb_true_iff in Hlf as [H1 H2]. apply in_range_spec in H1. auto.
     + intros Hr. rewrite Hr in Hre. exact Hre.
   - apply andb_true_iff in Hsc as [Hr Hp]. apply in_range_spec in Hr.
-    pose proof (oracle_inv s f p Hinv Hr (wfq_of_bools s p Hp Hg)) as H.
-    destruct (oracle s f p) as [s' [g v]]. exact H.
+    pose proof (oracle_inv s f (pt p) Hinv Hr (wfq_of_bools s (pt p) Hp Hg)) as H.
+    destruct (oracle s f (pt p)) as [s' [g v]]. exact H.
   - apply andb_true_iff in Hsc as [Hr Hp]. apply in_range_spec in Hr.
-    pose proof (oracle_inv s f p Hinv Hr (wfq_of_bools s p Hp Hg)) as H.
-    destruct (oracle s f p) as [s' [g v]]. exact H.
+    pose proof (oracle_inv s f (pt p) Hinv Hr (wfq_of_bools s (pt p) Hp Hg)) as H.
+    destruct (oracle s f (pt p)) as [s' [g v]]. exact H.
   - apply andb_true_iff in Hsc as [Hr Hp]. apply in_range_spec in Hr.
-    pose proof (value_inv s f p Hinv Hr (wfq_of_bools s p Hp Hg)) as H.
-    destruct (value s f p) as [s' v]. exact H.
+    pose proof (value_inv s f (pt p) Hinv Hr (wfq_of_bools s (pt p) Hp Hg)) as H.
+    destruct (value s f (pt p)) as [s' v]. exact H.
   - apply in_range_spec in Hsc. cbn [fresh_pt fresh_ex fst pt_ctr ex_ctr funs].
     apply add_point_new_leaf_point_inv; auto; [apply pND_nil|apply eND_single].
   - apply in_range_spec in Hsc. cbn [fresh_pt fresh_ex fst pt_ctr ex_ctr funs].
     apply add_point_new_leaf_point_inv; auto; [apply pND_single|apply eND_single].
   - cbn [fst]. repeat (apply andb_true_iff in Hsc as [Hsc ?]).
-    apply in_range_spec in Hsc. destruct (pwf_b_spec s x H2) as [Nx Hk].
+    apply in_range_spec in Hsc. destruct (pwf_b_spec s (pt x) H2) as [Nx Hk].
     unfold fresh_for in H. apply andb_true_iff in H as [Hn Ht].
     apply add_point_fresh_inv; auto.
     + apply (nodup_by_spec Nat.eqb nat_eqb_spec). exact H1.
     + apply (nodup_by_spec ekey_eqb ekey_eqb_spec). exact H0.
-    + destruct (find_pt (f_pts (getf s f)) (prune x)); [discriminate|reflexivity].
+    + destruct (find_pt (f_pts (getf s f)) (prune (pt x))); [discriminate|reflexivity].
     + intros i q Hin. rewrite forallb_forall in Ht. specialize (Ht (i, q) Hin). cbn in Ht.
-      destruct (find_pt (f_pts (getf s i)) (prune x)); [discriminate|reflexivity].
+      destruct (find_pt (f_pts (getf s i)) (prune (pt x))); [discriminate|reflexivity].
 Qed.
 
 Theorem run_inv : forall ops s, inv s -> run_ok s ops = true -> inv (fold_left step ops s).
